@@ -25,6 +25,7 @@ class Burst(object):
         self.length = 0
         self.at = None
         self.at_sector_select = False
+        self.at_mac_write = False
 
     def __call__(self, sim, cmd):
         sx = self.sx
@@ -36,6 +37,11 @@ class Burst(object):
                 # acknowledged packet 2 cannot be repeated by design
                 self.at_sector_select = (len(cmd) > 0 and cmd[0] == 0xC2) or \
                     getattr(sim, 'sector_pending', False)
+                # FeliCa Lite-S Write with MAC (block list ends with MAC_A,
+                # 91h): the tag counts executed writes (WCNT is part of the MAC)
+                self.at_mac_write = bool(
+                    getattr(sim, 'lite_s', False) and len(cmd) > 17 and
+                    cmd[1] == 0x08 and cmd[13] == 2 and cmd[17] == 0x91)
                 self.kind = sx.pick("kind", self.kinds)
                 self.length = sx.pick("burst", self.lengths)
                 self.mode = sx.pick("lost", list(self.modes))
@@ -52,7 +58,58 @@ class Burst(object):
         return None
 
 
+class FixedOS(object):
+    """module attribute `os` of nfc.tag.tt3_sony in the FeliCa Lite worlds:
+    the random challenge is a fixed byte string (contents are not what this
+    property quantifies over)"""
+
+    @staticmethod
+    def urandom(n):
+        return bytes(bytearray((0xA5 + 7 * i) & 0xFF for i in range(n)))
+
+
+class LiteWorld(worlds.World):
+    """FeliCa Lite (IC code F0h) / Lite-S (F1h) from env.tt3lite_sim, NDEF
+    formatted (Nbr 4, Nbw 1, Nmaxb 13) with a short message; card key of
+    PASSWORD; real pyDes on both sides (all cipher inputs are concrete).
+    auth=True: op_faults authenticates fault-free before the burst is armed,
+    so NDEF access goes through read_with_mac (Lite-S: write_with_mac)."""
+    kind = "tt3"
+    PASSWORD = b"0123456789abcdef"
+
+    def __init__(self, sx, lite_s, oldlen, auth):
+        from env import tt3lite_sim
+        import nfc.tag.tt3_sony
+        nfc.tag.tt3_sony.os = FixedOS
+        self.sx, self.auth, self.lite_s = sx, auth, lite_s
+        self.password = self.PASSWORD
+        nmaxb = 13
+        attr = [0x10, 4, 1, 0, nmaxb, 0, 0, 0, 0, 0x00, 0x01,
+                0, (oldlen >> 8) & 255, oldlen & 255]
+        cs = sum(attr)
+        blocks = {0: attr + [cs >> 8, cs & 255]}
+        for b in range(1, nmaxb + 1):
+            blocks[b] = [(0x40 + (16 * b + i) * 5 + b) & 0xFF for i in range(16)]
+        self.oldlen = oldlen
+        self.old = sx.mkbytes(blocks[1][0:oldlen], False)
+        self.cap = nmaxb * 16
+        key = self.PASSWORD
+        ck = [key[7 - i] for i in range(8)] + [key[15 - i] for i in range(8)]
+        self.sim = tt3lite_sim.LiteHookSim(tt3lite_sim.RealCipher(), lite_s, ck,
+                                           blocks, wcnt=0x000102)
+        self.clf = tt3lite_sim.LiteClf(self.sim)
+        # the message that op "write" stores (concrete: it goes through the MAC)
+        self.concrete_msg = [0x80 + 9 * i for i in range(7)]
+
+    def target(self):
+        from env import tt3lite_sim
+        return tt3lite_sim.target(self.lite_s)
+
+
 def make_world(sx, tt, oldlen):
+    if tt.startswith("tt3lite"):
+        return LiteWorld(sx, tt.startswith("tt3lites"), oldlen, tt.endswith("+auth"))
+
     # previous tag contents are concrete here: the quantifier of this property
     # is the fault script, not the data (C01-C03 cover contents)
     win = (0, 0)
@@ -124,6 +181,12 @@ def op_faults(sx, tt, op, kinds, lengths):
     tag = w.fresh_tag()
     if tag is None:
         sx.check(False, "activate-returned-none:" + tt)
+    if getattr(w, "auth", False):
+        # FeliCa Lite / Lite-S: authenticated state, reached without faults
+        if tag.authenticate(w.password) is not True:
+            sx.check(False, "fault-free-authenticate-fails:" + tt)
+        sx.reach("lite_authenticated_before_faults" if not w.lite_s
+                 else "lites_authenticated_before_faults")
     burst = Burst(sx, kinds, lengths)
     pre_ndef = None
     if op in ("write", "writebig", "format", "formatwipe", "reread"):
@@ -141,7 +204,10 @@ def op_faults(sx, tt, op, kinds, lengths):
         elif op == "reread":
             outcome = ("changed", pre_ndef.has_changed)
         elif op == "write":
-            msg = sx.mkbytes([sx.int("msg[%d]" % i, 0x80, 0xFF) for i in range(7)], True)
+            if hasattr(w, "concrete_msg"):
+                msg = sx.mkbytes(list(w.concrete_msg), True)
+            else:
+                msg = sx.mkbytes([sx.int("msg[%d]" % i, 0x80, 0xFF) for i in range(7)], True)
             pre_ndef.octets = msg
             outcome = ("written",)
         elif op == "writebig":
@@ -184,7 +250,7 @@ def op_faults(sx, tt, op, kinds, lengths):
         ok = sx.any([sx.eq(errno, KINDS[burst.kind][1]), errno > 0])
         sx.check(ok, "errno-does-not-match-error-kind:%s:%s" % (who, burst.kind))
         if absorbed_expected and not burst.at_sector_select:
-            sx.check(False, "transient-burst-not-absorbed:%s:%s:len=%d" % (who, burst.kind, burst.length))
+            sx.check(False, not_absorbed_label(who, burst))
         if op in ("read", "write", "writebig") and not tt.startswith("tt4"):
             # the error is over (the burst is used up): the application repeats
             # the operation through the same tag object
@@ -200,7 +266,7 @@ def op_faults(sx, tt, op, kinds, lengths):
         if outcome[1] is None:
             sx.reach("read_gave_none")
             if absorbed_expected:
-                sx.check(False, "transient-burst-not-absorbed:%s:%s:len=%d" % (who, burst.kind, burst.length))
+                sx.check(False, not_absorbed_label(who, burst))
             if not tt.startswith("tt4"):
                 return ["done", op, burst.kind, repeat_after_error(sx, w, tag, pre_ndef, op, msg, who)]
         else:
@@ -218,12 +284,20 @@ def op_faults(sx, tt, op, kinds, lengths):
         if outcome[1] is not True:
             sx.reach("present_false")
             if absorbed_expected:
-                sx.check(False, "transient-burst-not-absorbed:%s:%s:len=%d" % (who, burst.kind, burst.length))
+                sx.check(False, not_absorbed_label(who, burst))
         else:
             sx.reach("absorbed")
     else:
         sx.reach("absorbed" if outcome[1] is True else "documented_false_or_none")
     return ["done", op, burst.kind]
+
+
+def not_absorbed_label(who, burst):
+    label = "transient-burst-not-absorbed:%s:%s:len=%d" % (who, burst.kind, burst.length)
+    if burst.at_mac_write and burst.mode == "rsp":
+        # the executed Write with MAC whose response was lost: a site of its own
+        label += ":mac-write-response-lost"
+    return label
 
 
 def repeat_after_error(sx, w, tag, pre_ndef, op, msg, who):
@@ -304,6 +378,24 @@ def partitions(tier):
                 lengths = [1, 2, 3] if tier == "quick" else [1, 2, 3, 4]
                 parts.append(dict(name="%s:%s:%s" % (tt, op, kind), fn="op_faults",
                                   params=dict(tt=tt, op=op, kinds=[kind], lengths=lengths)))
+    # FeliCa Lite / Lite-S vendor classes (their NDEF classes override the
+    # Type 3 ones), unauthenticated and authenticated before the faults
+    all_kinds = ("timeout", "transmission", "protocol")
+    if tier == "quick":
+        lite = [("tt3lite+auth", "read", all_kinds), ("tt3lite+auth", "write", all_kinds),
+                ("tt3lites+auth", "read", all_kinds), ("tt3lites+auth", "write", ("timeout",)),
+                ("tt3lite", "read", ("timeout", "protocol")),
+                ("tt3lite", "write", ("transmission",)),
+                ("tt3lites", "read", ("transmission",))]
+    else:
+        lite = [(tt, op, all_kinds)
+                for tt in ("tt3lite", "tt3lites", "tt3lite+auth", "tt3lites+auth")
+                for op in ("read", "reread", "write", "present")]
+    for tt, op, kinds in lite:
+        for kind in kinds:
+            lengths = [1, 2, 3] if tier == "quick" else [1, 2, 3, 4]
+            parts.append(dict(name="%s:%s:%s" % (tt, op, kind), fn="op_faults",
+                              params=dict(tt=tt, op=op, kinds=[kind], lengths=lengths)))
     for tt in ("tt2", "tt1", "tt1dyn", "tt3", "tt4a", "tt4b"):
         for kind in ("timeout", "transmission", "protocol"):
             parts.append(dict(name="%s:activate:%s" % (tt, kind), fn="activation_faults",
@@ -313,8 +405,12 @@ def partitions(tier):
 
 MUST_REACH = ["no_fault", "fault:timeout", "fault:transmission", "fault:protocol",
               "absorbed", "ended_in_tag_command_error", "activation_with_fault",
-              "repeated_after_error"]
+              "repeated_after_error", "lite_authenticated_before_faults",
+              "lites_authenticated_before_faults"]
 BOUNDS = {"quick": "one burst (length 1..3, kind timeout/transmission/protocol, command or response lost) at every command position of read/write/presence/format/protect/dump on one small world per tag type; after a read/write that ended in TagCommandError or None the operation is repeated fault-free through the same tag object (Type 1/2/3) and must give the fault-free result",
           "thorough": "burst lengths 1..4"}
-OUTSIDE = ["two separate bursts in one operation", "repeating an operation after an error on a Type 4 Tag (ISO-DEP state after a failed exchange: known finding of C12)", "vendor specific tag classes other than Topaz/Topaz-512"]
-ASSUMPTIONS = ["a failing exchange either never reaches the tag or is executed with the response lost"]
+LITE_BOUNDS = "; FeliCa Lite / Lite-S vendor classes (env.tt3lite_sim, NDEF formatted, concrete key and contents): quick = authenticated Lite read/write x all kinds, authenticated Lite-S read x all kinds and write x timeout, unauthenticated Lite read/write and Lite-S read for some kinds; thorough = read/reread/write/present x all kinds on all four (unauthenticated, authenticated fault-free before the burst)"
+BOUNDS = dict((k, v + LITE_BOUNDS) for k, v in BOUNDS.items())
+OUTSIDE = ["two separate bursts in one operation", "repeating an operation after an error on a Type 4 Tag (ISO-DEP state after a failed exchange: known finding of C12)", "vendor specific tag classes other than Topaz/Topaz-512 and FeliCa Lite / Lite-S", "faults during authenticate() itself (C20 covers substituted responses, not lost ones)"]
+ASSUMPTIONS = ["a failing exchange either never reaches the tag or is executed with the response lost",
+               "FeliCa Lite / Lite-S worlds: env.tt3lite_sim.LiteHookSim with real pyDes on both sides (key, challenge from a fixed os.urandom stub, contents and the written message are concrete); the tag counts executed writes with MAC (WCNT)"]
